@@ -559,7 +559,7 @@ fn run(ctx: &mut Ctx) {
     }
     // random models to depth 5
     let mut rng = ctx.rng.clone();
-    for _ in 0..ctx.tier.of(15_000, 300_000) {
+    for _ in 0..ctx.tier.of(150_000, 1_500_000) {
         let depth = 1 + rng.below(5);
         let m = gen(&mut rng, depth, &sc);
         judge(ctx, &m, "random");
@@ -576,7 +576,7 @@ fn finish(m: &Merged, tier: Tier) -> Finish {
         ..Default::default()
     };
     f.floors.push(floor(format!("serde data-model kinds exercised: {kinds}/30 (29 kinds + failing Serialize)"), kinds >= 30));
-    f.floors.push(floor(format!("faithful images: {}", m.c("outcome:faithful")), m.c("outcome:faithful") >= tier.of(10_000, 100_000)));
+    f.floors.push(floor(format!("faithful images: {}", m.c("outcome:faithful")), m.c("outcome:faithful") >= tier.of(100_000, 1_000_000)));
     f.floors.push(floor(format!("compared with serde_json: {}", m.c("outcome:compared-with-serde_json")), m.c("outcome:compared-with-serde_json") >= tier.of(5_000, 50_000)));
     f.floors.push(floor(format!("required errors observed: {}", m.c("outcome:error-as-required")), m.c("outcome:error-as-required") >= 1_000));
     f.floors.push(floor(format!("unsupported keys refused: {}", m.c("outcome:unsupported-key-refused")), m.c("outcome:unsupported-key-refused") >= 100));
